@@ -5,216 +5,82 @@ import ast
 from typing import List, Optional
 
 from vlib.loader import Repo, AnalysisError, norm
-from vlib.affine import to_poly, provably_nonneg
-from vlib.poly import Poly
+from vlib.idxflow import Flow, implied, is_data
 from vlib import simloops as SL
 
 BT = SL.BT
 STATE = "jesse/store/state_candles.py"
 
 
-def is_input_array(node) -> bool:
-    return norm(node).replace('"', "'").endswith("['candles']")
-
-
-def aliases(fn) -> set:
-    """local names bound to an input 1m array (e.g. first_candles_set = candles[key]['candles'])"""
-    out = set()
-    for n in ast.walk(fn):
-        if isinstance(n, ast.Assign) and len(n.targets) == 1 and isinstance(n.targets[0], ast.Name) and is_input_array(n.value):
-            out.add(n.targets[0].id)
+def flows(repo):
+    """the index-bound / provenance flow of both simulators (engine E8), computed once per run"""
+    out = {}
+    for sim in ("_step_simulator", "_skip_simulator"):
+        fl = Flow(repo, BT)
+        fl.run_simulator(sim)
+        out[sim] = fl
     return out
 
 
-def enclosing_tests(fn, target) -> List[ast.AST]:
-    """tests of If statements (body side) and IfExp (body side) enclosing `target`"""
-    out = []
-
-    def rec(node, stack):
-        if node is target:
-            out.extend(stack)
-            return True
-        if isinstance(node, ast.If):
-            if any(rec(b, stack + [("if", node.test)]) for b in node.body):
-                return True
-            if any(rec(b, stack + [("else", node.test)]) for b in node.orelse):
-                return True
-            return rec(node.test, stack)
-        if isinstance(node, ast.IfExp):
-            return rec(node.body, stack + [("if", node.test)]) or rec(node.orelse, stack + [("else", node.test)]) or rec(node.test, stack)
-        for ch in ast.iter_child_nodes(node):
-            if rec(ch, stack):
-                return True
-        return False
-    rec(fn, [])
-    return out
-
-
-def guard_lower_bound(tests, var: str) -> int:
-    """largest k such that the enclosing guards imply var >= k (var starts at 0)"""
-    lb = 0
-    for side, t in tests:
-        txt = norm(t)
-        parts = [norm(v) for v in t.values] if isinstance(t, ast.BoolOp) and isinstance(t.op, ast.And) else [txt]
-        if side != "if":
-            continue
-        for p in parts:
-            if p in (f"{var} != 0", f"{var} > 0", f"0 < {var}", f"0 != {var}", var):
-                lb = max(lb, 1)
-            for k in range(1, 8):
-                if p in (f"{var} >= {k}", f"{var} > {k - 1}", f"{k} <= {var}"):
-                    lb = max(lb, k)
-                if p in (f"{var} - {k} >= 0", f"{var} - {k} > -1"):
-                    lb = max(lb, k)
-    return lb
-
-
-def check_bounds(repo, rep):
+def check_bounds(repo, rep, fl):
     rid = "C01-R1"
-    rep.rule(rid, "every read of the input 1m arrays inside the time loops stays inside [0, B): B = i + 1 in the normal simulator (candle i is "
-                  "the one being processed), B = i + candles_step in the fast simulator; a negative offset (i - k) is only read under a guard "
-                  "that implies i >= k (no wrap-around to the end of the series)")
-    sites = 0
-    for fname, bound_src, var in (("_step_simulator", "i + 1", "i"), ("_simulate_new_candles", "i + candles_step", "i")):
-        fn = repo.func(BT, fname)
-        B = to_poly(ast.parse(bound_src, mode="eval").body)
-        al = aliases(fn)
-        loops = [n for n in ast.walk(fn) if isinstance(n, ast.For)]
-        if fname == "_step_simulator":
-            time_loops = [l for l in loops if norm(l.iter).startswith("range(")]
-            if not time_loops:
-                raise AnalysisError("_step_simulator: time loop not found")
-            scope = time_loops[0]
-        else:
-            scope = fn
-        for n in ast.walk(scope):
-            if not isinstance(n, ast.Subscript):
+    rep.rule(rid, "every read of an input 1m array inside a simulator's time loop - in the simulator itself or in any module-local "
+                  "function the input is handed to, however deep - stays inside [0, B): B = loop variable + stride of the time loop "
+                  "(i + 1 in the normal simulator, i + chunk step in the fast one; candle i is the one being processed).  Index "
+                  "expressions are followed as affine forms through assignments, aliases, parameters and recursive calls; loop "
+                  "ranges, guards (i != 0, E % count == 0 with count from a positive table, min()/max()) give the facts; the bound is "
+                  "discharged by Fourier-Motzkin elimination.  A negative offset (i - k) must sit under a guard implying i >= k: "
+                  "otherwise it wraps around to the END of the series (future candles)")
+    sites = {}
+    for sim, f in fl.items():
+        for r in f.reads:
+            key = r.site
+            where = " > ".join(r.chain)
+            if r.lo is None or r.hi is None:
+                rep.violation(rid, key, f"{r.fn}: read `{norm(r.node)}` of the input candles has no affine bound (unbounded slice or non-affine index), reached through {where}")
                 continue
-            base = n.value
-            if not (is_input_array(base) or (isinstance(base, ast.Name) and base.id in al)):
-                continue
-            sites += 1
-            key = f"{fname}|{norm(n)}"
-            tests = enclosing_tests(fn, n)
-            lb_i = guard_lower_bound(tests, var)
-            if isinstance(n.slice, ast.Slice):
-                lo = to_poly(n.slice.lower) if n.slice.lower is not None else Poly.const(0)
-                hi = to_poly(n.slice.upper) if n.slice.upper is not None else None
-            else:
-                lo = to_poly(n.slice)
-                hi = lo + Poly.const(1) if lo is not None else None
-            if lo is None or hi is None:
-                rep.violation(rid, key, f"{fname}: read `{norm(n)}` of the input candles has no affine bound (unbounded or non-affine index)")
-                continue
-            # upper bound:  B - hi >= 0  with count >= 1, candles_step >= 1, i >= 0
-            # (a guard `(i + 1) % count == 0` / `(i + candles_step) % count == 0` implies count <= that expression)
-            slack = B - hi
-            ok_hi = provably_nonneg(slack, nonneg_atoms={var}, pos_atoms={"count", "candles_step", "num"})
-            if not ok_hi:
-                rep.violation(rid, key, f"{fname}: read `{norm(n)}` reaches candle index {hi!r} - 1, beyond the {bound_src} candles known at this step (look-ahead)")
-            # lower bound: lo >= 0 given i >= lb_i; window slices [E - count : E] are protected by the guard E % count == 0 (E >= count)
-            lo_shift = lo
-            need = None
-            const = lo.t.get((), 0)
-            coef_i = lo.t.get(((var, 1),), 0)
-            others = [m for m in lo.t if m not in ((), ((var, 1),))]
-            if not others and coef_i == 1 and const < 0:
-                need = int(-const)
-                if lb_i < need:
-                    rep.violation(rid, key, f"{fname}: read `{norm(n)}` uses index {lo!r} without a guard implying {var} >= {need}: at {var} = 0 it wraps around to the END of the series (future candles)")
-            elif others:
-                # window form E - count: accepted when guarded by E % count == 0
-                mod_guards = [t for side, t in tests if side == "if" and isinstance(t, ast.Compare) and isinstance(t.left, ast.BinOp) and isinstance(t.left.op, ast.Mod)]
-                okw = False
-                for g in mod_guards:
-                    E, cnt = to_poly(g.left.left), to_poly(g.left.right)
-                    if E is not None and cnt is not None and lo == E - cnt:
-                        okw = True
-                if not okw:
-                    rep.violation(rid, key, f"{fname}: read `{norm(n)}` has lower bound {lo!r} that is not protected by a window guard (may be negative: wrap-around)")
-            rep.instance(rid, key, {"site": key, "index_range": f"[{lo!r}, {hi!r})", "bound": bound_src, "guards": [norm(t) for s, t in tests]})
-    if sites < 6:
-        raise AnalysisError(f"C01-R1: only {sites} reads of the input arrays found (expected >= 6)")
+            up = implied(r.bound - r.hi, r.facts)
+            low = implied(r.lo, r.facts)
+            if (not up or not low) and r.opaque:
+                raise AnalysisError(f"{r.fn}: read `{norm(r.node)}` ({where}) uses {sorted(r.opaque)}, whose value the analysis does not follow: index range [{r.lo!r}, {r.hi!r}) undecided")
+            if not up:
+                rep.violation(rid, key, f"{r.fn}: read `{norm(r.node)}` reaches candle index {r.hi!r} - 1, beyond the {r.bound!r} candles known at this step of {sim} (look-ahead; reached through {where})")
+            if not low:
+                rep.violation(rid, key, f"{r.fn}: read `{norm(r.node)}` can use the negative index {r.lo!r} (no guard implies it is >= 0; reached through {where}): at the first step "
+                                        f"it wraps around to the END of the series (future candles)")
+            sites.setdefault(key, []).append(where)
+            rep.instance(rid, key + "|" + where, {"site": key, "through": where, "index_range": f"[{r.lo!r}, {r.hi!r})", "bound": repr(r.bound)})
+    if len(sites) < 6:
+        raise AnalysisError(f"C01-R1: only {len(sites)} read sites of the input arrays found (expected >= 6)")
     rep.floor(rid, 6)
 
 
-def check_escape(repo, rep):
+def check_escape(repo, rep, fl):
     rid = "C01-R2"
-    rep.rule(rid, "inside the time loops the whole input (the candles dict or a whole 1m array) is never handed to anything that could "
-                  "store or inspect it: it only appears subscripted (R1), as the iterable of the symbol loop, or as the argument of "
-                  "_simulate_new_candles, which is itself checked by R1")
-    allowed_callees = {"_simulate_new_candles", "len"}
-    n_sites = 0
-    for fname in ("_step_simulator", "_skip_simulator", "_simulate_new_candles"):
-        fn = repo.func(BT, fname)
-        al = aliases(fn)
-        loops = [l for l in ast.walk(fn) if isinstance(l, ast.For) and (norm(l.iter).startswith("range(") or fname == "_simulate_new_candles")]
-        scope_nodes = loops if fname != "_simulate_new_candles" else [fn]
-        for scope in scope_nodes:
-            for c in ast.walk(scope):
-                if isinstance(c, ast.Call):
-                    callee = SL.last(SL.dotted(c.func))
-                    for a in list(c.args) + [k.value for k in c.keywords]:
-                        whole = (isinstance(a, ast.Name) and (a.id == "candles" or a.id in al)) or is_input_array(a)
-                        if whole:
-                            n_sites += 1
-                            if callee not in allowed_callees:
-                                rep.violation(rid, f"{fname}|{callee}", f"{fname}: the whole input `{norm(a)}` is passed to {norm(c.func)}() inside the time loop")
-                            rep.instance(rid, f"{fname}|{callee}|{norm(a)}")
-                if isinstance(c, (ast.Assign, ast.AugAssign)):
-                    v = c.value
-                    whole = (isinstance(v, ast.Name) and (v.id == "candles" or v.id in al)) or is_input_array(v)
-                    tgt = c.targets[0] if isinstance(c, ast.Assign) else c.target
-                    if whole and isinstance(tgt, (ast.Attribute, ast.Subscript)):
-                        rep.violation(rid, f"{fname}|store", f"{fname}: the whole input is stored into `{norm(tgt)}` inside the time loop")
-        rep.instance(rid, f"{fname}|scanned")
-    rep.floor(rid, 3)
+    rep.rule(rid, "inside the time loops the whole input (the candles dict, one of its entries or a whole 1m array) is never handed to "
+                  "anything that could keep or inspect it: it is only subscripted (R1), iterated, measured with len(), or passed to "
+                  "module-local functions, which are analysed in turn; it is never stored into an attribute / container")
+    for sim, f in fl.items():
+        for fn, node, what, callee in f.escapes:
+            rep.violation(rid, f"{fn}|{callee or 'store'}", f"{fn}: the whole input is {what} inside the time loop of {sim} (`{norm(node)[:90]}`)")
+        rep.instance(rid, f"{sim}|scanned", {"functions": sorted(f.functions)})
+    rep.floor(rid, 2)
 
 
-def check_store_writers(repo, rep):
+def check_store_writers(repo, rep, fl):
     rid = "C01-R4"
-    rep.rule(rid, "what the simulators put into the candle store during the loop is derived only from bounded reads (R1): the current 1m row, "
-                  "its gap-normalised version, candles generated from bounded slices, or the parts of a split candle")
-    ok_calls = {"_get_fixed_jumped_candle", "generate_candle_from_one_minutes", "split_candle", "copy"}
+    rep.rule(rid, "what the simulators (and every function they call) put into the candle store during the time loop derives only "
+                  "from bounded reads of the input (R1) or from what the store itself hands back: the value written is followed "
+                  "through assignments, calls and helper functions")
     n = 0
-    for fname in ("_step_simulator", "_simulate_new_candles", "_simulate_price_change_effect", "_simulate_price_change_effect_multiple_candles", "_update_all_routes_a_partial_candle"):
-        fn = repo.func(BT, fname)
-        params = {a.arg for a in fn.args.args}
-        assigns = {}
-        for node in ast.walk(fn):
-            if isinstance(node, ast.Assign):
-                for t in node.targets:
-                    for sub in (t.elts if isinstance(t, ast.Tuple) else [t]):
-                        if isinstance(sub, ast.Name):
-                            assigns.setdefault(sub.id, []).append(node.value)
-        for c in ast.walk(fn):
-            if isinstance(c, ast.Call) and SL.last(SL.dotted(c.func)) in ("add_candle", "add_multiple_1m_candles", "batch_add_candle") and c.args:
-                n += 1
-                a = c.args[0]
-                srcs = []
-                if isinstance(a, ast.Name):
-                    srcs = assigns.get(a.id, []) or ([None] if a.id in params else [])
-                else:
-                    srcs = [a]
-                bad = []
-                for v in srcs:
-                    if v is None:
-                        continue         # a parameter: checked at the caller
-                    base = v
-                    if isinstance(base, ast.Call):
-                        nm = SL.last(SL.dotted(base.func))
-                        if nm in ok_calls or nm == "array":
-                            continue
-                        bad.append(norm(v)[:60])
-                        continue
-                    while isinstance(base, (ast.Subscript, ast.Attribute)):
-                        base = base.value
-                    if isinstance(base, ast.Name) and (base.id in params or base.id in assigns or base.id == "candles"):
-                        continue
-                    bad.append(norm(v)[:60])
-                if bad or not srcs:
-                    rep.violation(rid, f"{fname}|{norm(c)[:50]}", f"{fname}: candle stored by `{norm(c)[:80]}` has an untracked source {bad}")
-                rep.instance(rid, f"{fname}|{norm(a)}")
+    for sim, f in fl.items():
+        for fn, node, val, in_loop in f.stores:
+            if not in_loop:
+                continue
+            n += 1
+            if not is_data(val):
+                rep.violation(rid, f"{fn}|{norm(node)[:50]}", f"{fn}: the candle stored by `{norm(node)[:80]}` does not derive from a bounded read of the input or from the store (untracked source)")
+            rep.instance(rid, f"{sim}|{fn}|{norm(node.args[0]) if node.args else ''}")
     if n < 6:
         raise AnalysisError(f"C01-R4: only {n} store writes found")
     rep.floor(rid, 6)
@@ -251,42 +117,39 @@ def check_forming(repo, rep):
 
 
 def check_order_of_phases(repo, rep):
-    rid = "C01-R5"
-    rep.rule(rid, "per step: the new candle(s) are stored and matched before any strategy executes, and the clock is advanced before "
-                  "them (trace rule, both simulators; shared view with C02-R1)")
-    for sim, eff in (("_step_simulator", "_simulate_price_change_effect"), ("_skip_simulator", "_simulate_price_change_effect_multiple_candles")):
-        view = SL.sim_view(repo, sim, {eff, "_execute", "generate_candle_from_one_minutes"})
-        for evs in view["iters"]:
-            names = [e[1] for e in evs if e[0] == "call"]
-            if "_execute" in names:
-                first_exec = names.index("_execute")
-                later = [x for x in names[first_exec:] if x in (eff, "generate_candle_from_one_minutes")]
-                if later:
-                    rep.violation(rid, f"{sim}|phases", f"{sim}: candles are fed / generated after a strategy already executed in the same step: {names}")
-            rep.instance(rid, f"{sim}|{' '.join(names)}")
-    rep.floor(rid, 4)
+    from props import sessions as S
+    rep.rule("C01-R5", "both simulator functions interpreted whole on mini sessions (props/sessions.py; matcher, strategies, order store "
+                       "recorded): in every step no strategy executes - and nothing of the end-of-minute protocol happens - before the "
+                       "step's candles of every symbol have been stored and matched")
+    S.check_protocol(repo, rep, "C01-R5", what="order")
+    rep.rule("C01-R5b", "same sessions: a higher-timeframe candle is only generated from 1m candles of minutes that have already been matched "
+                        "(never from later ones), each completed window once, before the strategies of that step run")
+    S.check_generation(repo, rep, "C01-R5b")
 
 
 def run(repo: Repo, rep, tier: str):
-    rep.assume("count, candles_step, num >= 1; loop variables start at 0; the `E % count == 0` guard implies E >= count for the window slice")
-    rep.guarded(check_bounds, repo, rep)
-    rep.guarded(check_escape, repo, rep)
+    rep.assume("the session length (stop of the time loop's range) is not negative, so inside the loop body the stride is >= 1; values of the module-level timeframe table are >= 1 (checked on its literal); E % count == 0 with E >= 1 and count >= 1 implies E >= count")
+    fl = rep.guarded(flows, repo)
+    if fl is not None:
+        rep.guarded(check_bounds, repo, rep, fl)
+        rep.guarded(check_escape, repo, rep, fl)
+        rep.guarded(check_store_writers, repo, rep, fl)
     rep.guarded(check_forming, repo, rep)
-    rep.guarded(check_store_writers, repo, rep)
     rep.guarded(check_order_of_phases, repo, rep)
     rep.undecided_item("that everything a strategy observes is a function of the stored prefix (a two-run hyperproperty); the rules decide that the simulators never read or publish input beyond the current step")
     rep.undecided_item("user strategy code and indicator look-ahead (indicators: see C13)")
 
 
 CLAIM = {
-    "engine": "affine+traces",
-    "technique": "affine index-bound analysis of every read of the input candle arrays inside the time loops (upper bound = current step, guarded lower bound = no wrap-around), escape analysis of the input, provenance of store writes, phase-order trace rules",
-    "text": "Static. Every subscript of the input 1m arrays inside the time loop of the normal simulator and inside _simulate_new_candles of "
-            "the fast simulator is bounded symbolically: its largest index must be below i+1 (normal) / i+candles_step (fast) and a negative "
-            "offset such as i-1 must sit under a guard implying i >= 1 (otherwise it wraps to the end of the series = future candles); "
-            "window slices must be [E-count : E] under E % count == 0. The whole input never escapes into a call or a store inside the "
-            "loop; what is written to the candle store derives only from those bounded reads; forming candles are generated from stored "
-            "1m candles only; matching and candle generation precede strategy execution in every step. Not decided: the two-run "
-            "hyperproperty itself.",
-    "note": "Trusted: affine reasoning with the stated positivity assumptions; guards recognised: i != 0, i > 0, i >= k, E % count == 0.",
+    "engine": "idxflow+traces",
+    "technique": "interprocedural abstract interpretation of the simulators over an affine-index / provenance domain (input dict, entry, 1m array, data read from it, affine integers) with Fourier-Motzkin discharge of index bounds; escape analysis of the input; provenance of store writes; phase-order trace rules",
+    "text": "Static. Both simulators are interpreted abstractly from their time loop (the range loop that uses the input) through every "
+            "module-local function the input or data read from it is handed to, recursion included: every subscript of an input 1m "
+            "array must stay below the number of candles known at that step (loop variable + stride) and must not be negative (a "
+            "negative index wraps to the end of the series = future candles), proven from loop ranges, guards, min()/max() and the "
+            "positive timeframe table by Fourier-Motzkin elimination. The whole input never escapes into a call that is not analysed "
+            "or into a store inside the loop; what is written to the candle store derives only from those bounded reads or from the "
+            "store itself; forming candles are generated from stored 1m candles only; matching and candle generation precede strategy "
+            "execution in every step. Nothing is keyed on variable or helper names. Not decided: the two-run hyperproperty itself.",
+    "note": "Trusted: the stride of the time loop is positive inside its body; module-level table values are read from the literal. An index that involves a value the analysis does not follow is reported as undecided (exit 2), not as a violation.",
 }
